@@ -72,6 +72,12 @@ func genLongName(r *rand.Rand) string {
 		ext = ".é€" + strings.Repeat("x", r.Intn(20))
 	}
 	pad := strings.Repeat("z", r.Intn(60))
+	switch r.Intn(3) {
+	case 0: // separators and dot-dot inside an over-long name (must not survive cleaning)
+		pad = []string{"../../e-", "x/../../../", "/", "a/b/", "../"}[r.Intn(5)] + pad
+	case 1:
+		base = base[:len(base)/2] + []string{"/../", "/", "/./"}[r.Intn(3)] + base[len(base)/2:]
+	}
 	return pad + base + ext
 }
 
@@ -263,6 +269,11 @@ func genTarTarget(r *rand.Rand, tier string) Case {
 		b.WriteString(atoms[r.Intn(len(atoms))])
 	}
 	entry := b.String()
+	if r.Intn(4) == 0 {
+		// sibling directories sharing a name prefix with the destination
+		base := filepath.Base(filepath.Clean(dir))
+		entry = []string{"../", "x/../../", "./../"}[r.Intn(3)] + base + []string{"0", "x", ".bak", "-other", ""}[r.Intn(5)] + []string{"/f", "/sub/f", ""}[r.Intn(3)]
+	}
 	if countDotDot(entry) > 5 {
 		entry = "a/../b"
 	}
